@@ -569,7 +569,11 @@ func (k *Kernel) addProposedHeader(ctx context.Context, s *kState, ph tmconsensu
 				)
 			}
 
-			// Also update the committing view.
+			// Also update the committing view,
+			// keeping its vote summary in step with the merged precommits.
+			backfillVRV.VoteSummary.SetPrecommitPowers(
+				backfillVRV.ValidatorSet.Validators, backfillVRV.PrecommitProofs,
+			)
 			s.MarkCommittingViewUpdated()
 		}
 	}
